@@ -364,6 +364,9 @@ class IArr:
 
     @property
     def dtype(self):
+        d = getattr(self, "dtype_override", None)       # an input whose element type is left open (see C02: component planes of any real dtype)
+        if d is not None:
+            return d
         return QUAT if (self.quat or self.hcell) else (C128 if self.cplx else F64)
 
     @property
